@@ -4,4 +4,5 @@ EXTENDS Lifecycle
 MCIsotopes == {"", "Co60", "Mo100", "junk"}
 MCLevels   == {-1, 0, 1, 9}
 MCModes    == {0, 1, 4, 7, 20, 21}
+MCModesGa  == MCModes \cup {22}
 =============================================================================
